@@ -1321,6 +1321,13 @@ def inline_sym(prog, sym, depth=3):
 _FN_CALLS = ("std::ops::Fn::call", "std::ops::FnMut::call_mut", "std::ops::FnOnce::call_once")
 
 
+def closure_value(prog, clo_sym, args=()):
+    """the value an in-place closure returns when called with `args` (beta_reduce of a synthetic call)"""
+    call = ("call", "std::ops::FnOnce::call_once", (clo_sym, ("agg", "tuple", tuple(args), None)), -1, "std::ops::FnOnce::call_once")
+    r = beta_reduce(prog, call)
+    return None if r == call else r
+
+
 def beta_reduce(prog, sym, depth=3):
     """`Fn::call(|l, r| body, (a, b))` with the closure written in place  ->  body[l := a, r := b].
     Applies to closures with one returned expression, no loops and no merge in that expression; captured variables are
@@ -1337,10 +1344,17 @@ def beta_reduce(prog, sym, depth=3):
                     rs = returned_syms(g)
                     if len(rs) == 1 and not any(x[0] in ("phi", "unknown") for x in ir.walk(rs[0][1])):
                         caps, args = clo[2], tup[2]
+                        by_name = {}
+                        for cap in caps:
+                            if cap and cap[0] == "var":      # captured variables are closure fields named after the variable
+                                by_name[cap[1]] = cap
+                                by_name["_ref__" + cap[1]] = cap
 
                         def sub(n2):
                             if n2 and n2[0] == "field" and strip(n2[1])[0] == "param" and strip(n2[1])[1] == 1 and str(n2[2]).isdigit() and int(n2[2]) < len(caps):
                                 return caps[int(n2[2])]
+                            if n2 and n2[0] == "field" and strip(n2[1])[0] == "param" and strip(n2[1])[1] == 1 and n2[2] in by_name:
+                                return by_name[n2[2]]
                             if n2 and n2[0] == "param" and isinstance(n2[1], int) and 2 <= n2[1] <= len(args) + 1:
                                 return args[n2[1] - 2]
                             return _simplify_field(n2)
